@@ -533,20 +533,6 @@ structure WFMacro (pt : PText) (items : List BItem) : Prop where
   pre : ∀ t ∈ pt.pre, t.isParam = false
   delims : ∀ d ∈ pt.params, ∀ t ∈ d, t.isParam = false
   body : ∀ it ∈ items, WFItem pt.params.length it
-  /-- a macro without any parameter text returns its stored text unchanged (`##` is undoubled by the inner `\def`) -/
-  nohash : pt.pre = [] → pt.params = [] → ∀ it ∈ items, ∀ c, it ≠ .hash c
-
-theorem texSubst_nohash (items : List BItem) (h0 : ∀ it ∈ items, WFItem 0 it)
-    (hh : ∀ it ∈ items, ∀ c, it ≠ .hash c) : texSubst items [] = renderBody items := by
-  induction items with
-  | nil => rfl
-  | cons it rest ih =>
-    have hr := ih (fun x hx => h0 x (List.mem_cons_of_mem _ hx)) (fun x hx => hh x (List.mem_cons_of_mem _ hx))
-    have hi := h0 it List.mem_cons_self
-    cases it with
-    | tok t => simp only [texSubst, renderBody, List.flatMap_cons, substItem, renderItem] at hr ⊢; rw [hr]
-    | par k => obtain ⟨h1, h2, _⟩ := hi; omega
-    | hash c => exact absurd rfl (hh _ List.mem_cons_self c)
 
 /-- **One macro call in the model = one macro call of TeX**, for every well-formed definition (any pattern of
     delimited/undelimited parameters, any replacement text) and every input inside NF-prog on which TeX's call is
@@ -578,7 +564,9 @@ theorem invokeDef_of_texCall (pt : PText) (items : List BItem) (s out rest : Lis
           unfold texMatch at hm; simp [hpre, hpar, matchLits, texArgs] at hm; exact ⟨hm.1, hm.2.symm⟩
         obtain ⟨rfl, rfl⟩ := hm'
         have hb : ∀ it ∈ items, WFItem 0 it := by simpa [hpar] using wf.body
-        simp [invokeDef, invokeDefWith, he, texSubst_nohash items hb (wf.nohash hpre hpar)]
+        have hs0 : substBody (renderBody items) [none] = .ok (texSubst items []) := by
+          simpa [substBody] using substGo_render [] items (by simpa using hb)
+        simp [invokeDef, invokeDefWith, he, hs0, Except.map]
       · have hp := matchPattern_of_texMatch pt s args rest' wf.nparams wf.pre wf.delims hm hnf
         have hlen : args.length = pt.params.length := by
           unfold texMatch at hm
